@@ -36,6 +36,7 @@ type Node struct {
 	C   int    `json:"c"`
 	T   int    `json:"t"`
 	F   int    `json:"f"`
+	S   int    `json:"s"` // nl nodes: value / source slot; test nl: the slot
 	Src string `json:"src"`
 	Txt string `json:"txt,omitempty"`
 }
@@ -49,6 +50,7 @@ type Proc struct {
 	Entry int     `json:"entry"`
 
 	deferSeq int
+	slotIDs  map[interface{}]int
 }
 
 type Unknown struct {
@@ -117,12 +119,61 @@ func (p *Proc) simplify() {
 		}
 	}
 	for round := 0; round < 4; round++ {
+		p.dropDeadNil()
 		p.dropEmptyDefers()
 		p.collapseTails()
 		p.canonNd()
 		p.mergeEqual()
 		p.compact()
 	}
+}
+
+// dropDeadNil removes nil-ness bookkeeping that no test can observe: an assignment to slot s is dead when
+// no path from it reaches a test (or copy) of s before s is assigned again.
+func (p *Proc) dropDeadNil() {
+	p.resolveSkips()
+	uses := func(n *Node, s int) bool {
+		return (n.K == "test" && n.A == "nl" && n.S == s) || (n.K == "nl" && n.Op == "cp" && n.S == s)
+	}
+	live := func(from, s int) bool {
+		seen := map[int]bool{}
+		st := []int{from}
+		for len(st) > 0 {
+			i := st[len(st)-1]
+			st = st[:len(st)-1]
+			if i <= 0 || seen[i] {
+				continue
+			}
+			seen[i] = true
+			n := p.Nodes[i-1]
+			if uses(n, s) {
+				return true
+			}
+			if n.K == "nl" && n.C == s {
+				continue // redefined
+			}
+			st = append(st, n.T, n.F)
+		}
+		return false
+	}
+	for _, n := range p.Nodes {
+		if n.K == "nl" && !live(n.T, n.C) {
+			n.K = "skip"
+		}
+	}
+	// a test of a slot that is never assigned on any path is uninterpreted
+	assigned := map[int]bool{}
+	for _, n := range p.Nodes {
+		if n.K == "nl" {
+			assigned[n.C] = true
+		}
+	}
+	for _, n := range p.Nodes {
+		if n.K == "test" && n.A == "nl" && !assigned[n.S] {
+			n.K, n.A, n.Op, n.S = "nd", "", "", 0
+		}
+	}
+	p.resolveSkips()
 }
 
 // canonNd replaces every web of nd nodes by a canonical chain over the set of non-nd nodes it can
@@ -311,11 +362,11 @@ func (p *Proc) mergeEqual() {
 			if n.K == "skip" {
 				continue
 			}
-			s := fmt.Sprintf("%s|%s|%s|%d|%d|%d", n.K, n.A, n.Op, n.C, n.T, n.F)
+			s := fmt.Sprintf("%s|%s|%s|%d|%d|%d|%d", n.K, n.A, n.Op, n.C, n.T, n.F, n.S)
 			switch n.K {
-			case "nd", "ret", "skip", "defer", "undefer":
+			case "nd", "ret", "skip", "defer", "undefer", "nl":
 			case "test":
-				if n.A != "deferred" {
+				if n.A != "deferred" && n.A != "nl" {
 					s += "|" + n.Src
 				}
 			default:
